@@ -23,6 +23,9 @@ def pool_trees():
     """name -> tree; identical tuple objects are built once and shared (DAG)."""
     s = ("Multiply", [X, Y])                       # shared by e1, e2, e3
     t = ("Add", [X, ("Constant", 1)])              # shared by e2, e4
+    # variable-free, undefined as written, but with rewrite rules that apply to them: shared by e8, e9
+    u = ("NthPower", ("NthRoot", ("Constant", -4), 2), 2)
+    w = ("Multiply", [("Constant", 0), ("Logarithm", ("Constant", -1), E)])
     return {
         "e1": ("Add", [s, ("NthPower", s, 2)]),
         "e2": ("Divide", s, t),
@@ -31,6 +34,12 @@ def pool_trees():
         "e5": ("Minus", ("NthRoot", ("NthPower", X, 3), 3), ("Reciprocal", ("Negation", Y))),
         "e6": ("Add", [X, ("Multiply", [Y, ("Reciprocal", ("Constant", 0))])]),       # variable-free undefined part
         "e7": ("Multiply", [s, ("Logarithm", ("Constant", 8), 2), ("Power", ("Constant", 1), t)]),
+        "e8": ("Multiply", [X, u, ("NthPower", Y, 2)]),
+        "e9": ("Add", [("Multiply", [Y, u]), w, ("Reciprocal", ("Reciprocal", ("Constant", 0)))]),
+        # the rarer parameter classes: odd/even n >= 4 (of a product that is negative at p2), bases below and at one
+        "e10": ("Add", [("NthRoot", s, 5), ("NthRoot", ("Add", [("NthPower", X, 2), ("Constant", 1)]), 4), ("Exponential", s, 0.5),
+                        ("Exponential", Y, 1), ("NthPower", s, 7)]),
+        "e11": ("Multiply", [("NthRoot", ("Negation", t), 7), ("Logarithm", ("NthPower", Y, 2), 0.5), ("NthRoot", X, 9)]),
     }
 
 
@@ -54,9 +63,11 @@ def all_actions():
             for v in ("x", "y"):
                 acts.append(("partial", e, p, v))
                 acts.append(("located", e, p, v))
+            acts.append(("partial", e, p, "absent"))
             acts.append(("partial-early", e, p, "x"))
             acts.append(("differential-early", e, p, "y"))
         acts.append(("as_expression", e, None, "x"))
+        acts.append(("as_expression", e, None, "absent"))
         acts.append(("as_expression-reverse", e, None, "y"))
         acts.append(("normalize", e, None, None))
     return acts
